@@ -12,7 +12,7 @@ import numpy as np
 from .. import nncommon as nc
 from .. import tracecommon as tcm
 from .. import tlc
-from ..core import MachineryFailure
+from ..core import MachineryFailure, mix
 
 CLASSES = ["AlphaCdr3Levenshtein", "BetaCdr3Levenshtein", "Cdr3Levenshtein", "AlphaCdrLevenshtein", "BetaCdrLevenshtein", "CdrLevenshtein"]
 ALPHA = ["TRAV1-1*01", "TRAV12-2*01", "TRAV40*01", "TRAV13-1*01", "TRAV21*01", "TRAV8-4*01"]
@@ -267,7 +267,7 @@ def run(ctx):
                 n += 1
                 if doc["inclass"] == "table" and n % ((2 if name == "one" else 12) if q else 2):
                     continue
-                items.append((n, doc, genes))
+                items.append((mix(n), doc, genes))
             res.printed = []
             ctx.parallel(items, _replay_item)
         ctx.exhaustive = True
